@@ -49,7 +49,7 @@ CLAIMED = {
          "Kernel-checked: vec/unvec inverses, vec(AXB) = (B^T (x) A) vec X, tensor associativity and power recursion = iterate, Gram relations, majorisation by partial sums, meaning of every exact decider (yes iff the defining equation holds), soundness of PSD / not-PSD / "
          "linear (in)dependence / rank certificates, invariance lemmas used by the generators. Tie to /repo: every listed predicate and helper on matrices of size 1..6 built exactly (Gaussian integers, exact rational unitaries) and perturbed by a margin >= 1e-3; verdicts must agree with the Lean decider; "
          "helper identities by exact equality or exact residuals.",
-         "Trusted: Lean kernel + standard axioms; hand-written deciders as the reading of each documented definition (doc/code disagreements listed in DESIGN.md); Python harness. spark, UPB search rank, total positivity minors: executable elimination without a correctness theorem."),
+         "Trusted: Lean kernel + standard axioms; hand-written deciders as the reading of each documented definition (doc/code disagreements listed in DESIGN.md); Python harness. The exact rank routine is proved correct (= Matrix.rank), hence linear independence, spark (spark_spec), the UPB rank tests and the commutant dimension are backed by theorems; still executable-only: exact determinants of total-positivity minors, the signature inverse, the exact LDL definiteness deciders (the PSD verdicts are additionally certified per run)."),
  "C19": ("Lean 4 state machine for the seeding discipline (induction over call histories) + post-processing theorems over complex matrices + PGM/PBM/measure algebra; histories and exact relation residuals as correspondence",
          "Kernel-checked: a seeded call's output is a function of (generator, arguments, seed) only, in every history and world; seeded and unseeded toqito calls never disturb the global NumPy stream; each generator's post-processing yields the advertised kind "
          "(unit-trace PSD of rank <= k, unitary/orthogonal after the QR phase fix, PSD, POVM, Schmidt rank <= k via the mirrored swap/max-entangled construction, circulant PSD Gram); PGM/PBM are POVMs; Born rule, normalised post-states, probabilities sum to one. "
@@ -64,7 +64,7 @@ CLAIMED = {
          "Kernel-checked (97 theorems): the Choi matrix determines the map; TP iff Tr_out J = 1; unital iff Tr_in J = 1; HP iff J Hermitian; CP (all amplifications positive) iff J PSD iff a Kraus family exists; CP implies positive; unitary channels; "
          "exact deciders correct end to end (yes/no with margin); every built-in constructor (depolarizing, dephasing, amplitude/phase damping, bit flip, Pauli channel for every qubit count, reduction, Choi map) acts by its textbook formula and has its textbook properties for all dimensions and parameters in range. "
          "Tie to /repo: ground-truth maps (Stinespring isometries from exact rational unitaries, mixtures, transposition-type maps, margin perturbations) asked of every predicate in every documented form; constructors on parameter grids incl. end points and just-outside values.",
-         "Trusted: Lean kernel + standard axioms; hand-written deciders/closed forms; Python harness. Cited, not proved: Choi's extremality theorem (only the decision procedure is modelled); exact rank routine has no theorem linking it to Matrix.rank. Known finding: is_extremal on linearly dependent Kraus lists."),
+         "Trusted: Lean kernel + standard axioms; hand-written deciders/closed forms; Python harness. Cited, not proved: Choi's extremality theorem (only the decision procedure is modelled). The exact rank / pivot-column routine is proved correct (rankQ = Matrix.rank; pivot columns are a basis of the column space). Known finding: is_extremal on linearly dependent Kraus lists."),
  "C12": ("Lean 4 theorems on the partial transpose and PPT weak duality + verified certificate checkers; toqito's PPT / symmetric-extension values must lie in or be ordered against the certified intervals; call purity by history comparison",
          "Kernel-checked: partial transpose entry formula, linear, involutive, trace-preserving, self-adjoint for the trace form; T_A = (T_B)^T so the PPT set does not depend on the party; PPT weak duality; PPT value <= global optimum; product measurements are PPT; local-unitary invariance; "
          "separable measurements satisfy the level-1 and level-2 symmetric-extension constraints; checker soundness; the Bell ensemble has PPT value exactly 1/2 (both certificates by kernel evaluation). Per run: 2..4 states on 2x2 and 2x3, both forms, either party inside certified intervals; hierarchy level 1 = PPT, "
@@ -105,7 +105,7 @@ CLAIMED = {
          "Kernel-checked: the reshape of schmidt_rank is the amplitude matrix (and the pre-fix reshape is not, with the concrete counterexample); (U (x) V) psi has amplitude matrix U A V^T so Schmidt rank and operator Schmidt rank are local invariants; planted states have rank = number of non-zero s_i; a vector/operator is a product iff all 2x2 minors vanish; "
          "purity and the characteristic polynomial are unitarily invariant; entropy is additive on products; partial transpose is covariant under local unitaries; for every pure state the partial transpose has (rho^T_B)^H rho^T_B = (A A^H) (x) (A^H A), hence ||rho^T_B||_1 = (sum s_i)^2 for planted Schmidt coefficients (negativity / log-negativity closed form); "
          "concurrence 2|det A| and its planted value; S(k) vector norm as sum of the k largest squares; rank certificates sound. Tie to /repo: states built as (U (x) V) sum s_i |ii> with rational s and exact rational unitaries, unequal local dims, all dim forms; every function compared with the closed form (1e-9 scale; exact for ranks and verdicts); local-unitary invariance on mixed states.",
-         "Trusted: Lean kernel + standard axioms; Python harness. Partial (stated in evidence): S(k) operator norm and is_block_positive are only bracketed one-sidedly outside closed-form families; Eckart-Young (S(k) vector norm = max overlap) not proved; trace norm = numpy nuclear norm assumed."),
+         "Trusted: Lean kernel + standard axioms; Python harness. The exact rank elimination is proved correct (rankQ = Matrix.rank; Schmidt rank mirror = rank of the amplitude / realigned matrix). Partial (stated in evidence): S(k) operator norm and is_block_positive are only bracketed one-sidedly outside closed-form families; Eckart-Young (S(k) vector norm = max overlap) not proved; trace norm = numpy nuclear norm assumed."),
 }
 PENDING_REASON = "check not built yet in this round (work in progress; see DESIGN.md section 7 for the plan)"
 
